@@ -50,14 +50,14 @@ def cases(tier, seed):
     rng = random.Random(seed * 7919 + 20)
     out = []
     cfgs = [dict(p=2), dict(p=2, r=1), dict(p=3), dict(p=3, r=1), dict(p=1, q=1), dict(p=4)]
-    for i in range(150 if tier == 'quick' else 1500):
+    for i in range(150 if tier == 'quick' else 8000):
         out.append(dict(kind='scene', cfg=rng.choice(cfgs), sseed=rng.randrange(10 ** 9), depth=rng.choice((1, 2, 3))))
     for cfg in cfgs:
         out.append(dict(kind='meta', cfg=cfg))
         out.append(dict(kind='native', cfg=cfg, dtype='float64'))
         out.append(dict(kind='native', cfg=cfg, dtype='int64'))
         out.append(dict(kind='layouts', cfg=cfg))
-    for i in range(60 if tier == 'quick' else 400):
+    for i in range(60 if tier == 'quick' else 3000):
         out.append(dict(kind='drag', cfg=rng.choice(cfgs[:4] + [dict(p=3, r=1), dict(p=3)]), sseed=rng.randrange(10 ** 9),
                         updates=rng.choice((1, 2, 3)), fork=True))
     return out
